@@ -17,7 +17,10 @@ import (
 
 type LazyCase struct {
 	Fam  string  `json:"fam"`
-	How  string  `json:"how"` // func | computed | host (GlobalValueLoadFunc hands out a fresh computed value at every load)
+	// How: func | computed | host (GlobalValueLoadFunc hands out a fresh computed value at every load) |
+	// native (a host function hn() that evaluates the body with ctx.RunExpr while the program runs) |
+	// runexpr (the program itself is evaluated with vm.RunExpr instead of vm.Run)
+	How string `json:"how"`
 	N    int     `json:"n"`
 	M    int     `json:"m,omitempty"`
 	Runs int     `json:"runs,omitempty"` // evaluations of the program on the same VM (default 1)
@@ -74,10 +77,10 @@ func lazyByName(name string) *lazyFamily {
 
 func checkLazy(c LazyCase, s *rt.Section) *rt.Failure {
 	f := lazyByName(c.Fam)
-	if f == nil || (c.How != "func" && c.How != "computed" && c.How != "host") {
+	if f == nil || (c.How != "func" && c.How != "computed" && c.How != "host" && c.How != "native" && c.How != "runexpr") {
 		return s.NewFailure("replay", "replay:unknown-family", c, c.Fam+"/"+c.How, "a known family")
 	}
-	use := map[string]string{"func": "lz()", "computed": "lz", "host": "hc"}[c.How]
+	use := map[string]string{"func": "lz()", "computed": "lz", "host": "hc", "native": "hn()", "runexpr": "lz()"}[c.How]
 	body, prog := f.build(c.N, c.M, use)
 	vm := c.Cfg.NewVM()
 	switch c.How {
@@ -92,6 +95,18 @@ func checkLazy(c LazyCase, s *rt.Section) *rt.Failure {
 			}
 			return nil
 		}
+	case "native":
+		vm.Attrs.Store("hn", ds.NewNativeFunctionVal(&ds.NativeFunctionData{Name: "hn", Params: []string{},
+			NativeFunc: func(ctx *ds.Context, this *ds.VMValue, params []*ds.VMValue) *ds.VMValue {
+				v, err := ctx.RunExpr(body, false)
+				if err != nil {
+					ctx.Error = err
+					return nil
+				}
+				return v
+			}}))
+	case "runexpr":
+		vm.Attrs.Store("lz", ds.NewFunctionValRaw(&ds.FunctionData{Expr: body, Name: "lz"}))
 	}
 	B := budgetOf(c.Cfg)
 	runs := c.Runs
@@ -102,7 +117,18 @@ func checkLazy(c LazyCase, s *rt.Section) *rt.Failure {
 	for r := 0; r < runs; r++ {
 		o := outcome{vm: vm}
 		ds.VerifMeterReset(64*B + 10_000)
-		o.pi = rt.Guard(func() { o.err = vm.Run(prog) })
+		o.pi = rt.Guard(func() {
+			if c.How == "runexpr" {
+				vm.Error = nil
+				vm.NumOpCount = 0 // RunExpr continues the count of the previous evaluation; the host starts it afresh
+				var v *ds.VMValue
+				if v, o.err = vm.RunExpr(prog, true); o.err == nil {
+					vm.Ret = v
+				}
+				return
+			}
+			o.err = vm.Run(prog)
+		})
 		o.ops, o.rolls = ds.VerifOpsDone.Load(), ds.VerifRollsDone.Load()
 		ds.VerifMeterReset(0)
 		o.cnt = int64(vm.NumOpCount)
@@ -133,7 +159,7 @@ func drawLazyCase(t *rapid.T) LazyCase {
 	c := LazyCase{Cfg: drawCfg(t, true)}
 	f := lazyFamilies[pick(t, "lazyFam", len(lazyFamilies))]
 	c.Fam = f.name
-	c.How = rapid.SampledFrom([]string{"func", "computed", "host"}).Draw(t, "how")
+	c.How = rapid.SampledFrom([]string{"func", "computed", "host", "native", "runexpr"}).Draw(t, "how")
 	B := c.Cfg.OpLimit
 	c.M = rapid.IntRange(0, 2000).Draw(t, "m")
 	c.Runs = rapid.IntRange(1, 3).Draw(t, "runs")
